@@ -160,6 +160,18 @@ def exec (s : State) (args : List String) : State × List Event × String :=
       let r := s.gnmiUpdate (parseInt now) pn.1 pn.2
       if r.1 = .panic then (r.2.1, [], "panic")
       else (r.2.1, r.2.2.flatten, renderRes r.1 ++ " " ++ renderGroups r.2.2)
+  | ["updu", now, noti] =>
+      -- the property's reading of a notification with several updates and deletes (C03): its updates, then its
+      -- deletes, each as a notification of its own, one at a time; the implementation is handed the whole notification
+      let pn := parseNoti noti
+      let us := pn.2.upd.map (fun u => { pn.2 with upd := [u], del := [] }) ++
+                pn.2.del.map (fun d => { pn.2 with upd := [], del := [d] })
+      let r : Res × State × List (List Event) := us.foldl (fun (acc : Res × State × List (List Event)) u =>
+          if acc.1 = .panic then acc else
+          let r := acc.2.1.gnmiUpdate (parseInt now) pn.1 u
+          ((if r.1 = Res.panic then Res.panic else if r.1 = Res.ok then acc.1 else Res.err), r.2.1, acc.2.2 ++ r.2.2)) (Res.ok, s, [])
+      if r.1 = .panic then (r.2.1, [], "panic")
+      else (r.2.1, r.2.2.flatten, renderRes r.1 ++ " " ++ renderGroups r.2.2)
   | ["updmeta", now] =>
       let r := s.updateMetadata enc (parseInt now); (r.1, r.2, renderEventsSorted r.2)
   | ["query", t, q] =>
